@@ -18,6 +18,7 @@ import (
 	"go/ast"
 	"go/token"
 	"go/types"
+	"os"
 	"path/filepath"
 	"sort"
 	"strings"
@@ -659,4 +660,113 @@ func genRateWiring() {
 	}
 	fmt.Fprintf(&b, "Definition rate_parses : list rate_parse := [\n%s\n].\n", strings.Join(rows, ";\n"))
 	writeIfChanged("RateWiring.v", b.Bytes())
+}
+
+// ---------------------------------------------------------------- the limiter library the model describes
+
+func init() { register("RateLib", genRateLib) }
+
+// genRateLib pins the rate-limiter library: Model/Limiter.v is a model of go.uber.org/ratelimit at
+// one version; go.mod/go.sum say which version and content the build uses (the module cache is
+// checksum-verified against go.sum).  If the library source is present in the module cache its
+// defaults (slack, window, constructor) are transcribed as well; absence is transcribed, not fatal.
+func genRateLib() {
+	const mod = "go.uber.org/ratelimit"
+	read := func(name string) string {
+		data, err := os.ReadFile(filepath.Join(*repo, name))
+		if err != nil {
+			die("read %s: %v", name, err)
+		}
+		return string(data)
+	}
+	version, replaced := "", false
+	for _, line := range strings.Split(read("go.mod"), "\n") {
+		f := strings.Fields(line)
+		if len(f) >= 2 && f[0] == mod && strings.HasPrefix(f[1], "v") {
+			version = f[1]
+		}
+		if len(f) >= 3 && f[0] == "require" && f[1] == mod {
+			version = f[2]
+		}
+		if strings.Contains(line, "=>") && strings.Contains(line, mod) {
+			replaced = true
+		}
+	}
+	sum := ""
+	for _, line := range strings.Split(read("go.sum"), "\n") {
+		f := strings.Fields(line)
+		if len(f) == 3 && f[0] == mod && f[1] == version {
+			sum = f[2]
+		}
+	}
+	// optional: the source in the module cache
+	cache := os.Getenv("GOMODCACHE")
+	if cache == "" {
+		gp := os.Getenv("GOPATH")
+		if gp == "" {
+			gp = filepath.Join(os.Getenv("HOME"), "go")
+		}
+		cache = filepath.Join(gp, "pkg", "mod")
+	}
+	dir := filepath.Join(cache, "go.uber.org", "ratelimit@"+version)
+	found, slack, per, ctor := false, "0", "", ""
+	perReq, maxSlack := "", ""
+	if st, err := os.Stat(dir); err == nil && st.IsDir() && version != "" {
+		lp := parseDir(dir)
+		found = true
+		bfd := lp.findFunc("", "buildConfig")
+		ast.Inspect(bfd.Body, func(n ast.Node) bool {
+			cl, ok := n.(*ast.CompositeLit)
+			if !ok {
+				return true
+			}
+			if id, ok := cl.Type.(*ast.Ident); !ok || id.Name != "config" {
+				return true
+			}
+			for _, el := range cl.Elts {
+				kv, ok := el.(*ast.KeyValueExpr)
+				if !ok {
+					continue
+				}
+				switch {
+				case rwIsIdent(kv.Key, "slack"):
+					slack = zlit(evalInt(lp, kv.Value, nil))
+				case rwIsIdent(kv.Key, "per"):
+					per = rwExprStr(kv.Value)
+				}
+			}
+			return true
+		})
+		nfd := lp.findFunc("", "New")
+		for _, c := range rwCallsIn(nfd.Body, "newAtomicBased", "newMutexBased") {
+			ctor = rwCallee(c)
+		}
+		afd := lp.findFunc("", "newAtomicBased")
+		ast.Inspect(afd.Body, func(n ast.Node) bool {
+			switch x := n.(type) {
+			case *ast.AssignStmt:
+				if len(x.Lhs) == 1 && len(x.Rhs) == 1 && rwIsIdent(x.Lhs[0], "perRequest") {
+					perReq = rwExprStr(x.Rhs[0])
+				}
+			case *ast.KeyValueExpr:
+				if rwIsIdent(x.Key, "maxSlack") {
+					maxSlack = rwExprStr(x.Value)
+				}
+			}
+			return true
+		})
+	}
+	var b bytes.Buffer
+	b.WriteString("(* GENERATED by tools/gen/ratewiring.go (RateLib) from go.mod, go.sum and the module cache. Do not edit. *)\n")
+	b.WriteString("From Coq Require Import ZArith String.\nOpen Scope Z_scope.\nOpen Scope string_scope.\n\n")
+	fmt.Fprintf(&b, "Definition ratelimit_version : string := %s.\n", coqString(version))
+	fmt.Fprintf(&b, "Definition ratelimit_sum : string := %s.\n", coqString(sum))
+	fmt.Fprintf(&b, "Definition ratelimit_replaced : bool := %v.\n", replaced)
+	fmt.Fprintf(&b, "Definition ratelimit_src_found : bool := %v.\n", found)
+	fmt.Fprintf(&b, "Definition ratelimit_default_slack : Z := %s.\n", slack)
+	fmt.Fprintf(&b, "Definition ratelimit_default_per : string := %s.\n", coqString(per))
+	fmt.Fprintf(&b, "Definition ratelimit_new_impl : string := %s.\n", coqString(ctor))
+	fmt.Fprintf(&b, "Definition ratelimit_per_request_expr : string := %s.\n", coqString(perReq))
+	fmt.Fprintf(&b, "Definition ratelimit_max_slack_expr : string := %s.\n", coqString(maxSlack))
+	writeIfChanged("RateLib.v", b.Bytes())
 }
